@@ -1396,12 +1396,16 @@ class Interp:
         # calls whose only effect is output are dropped (documented in evidence.dropped_by_extraction)
         fnode = node.func
         fname = fnode.id if isinstance(fnode, ast.Name) else fnode.attr if isinstance(fnode, ast.Attribute) else None
-        if fname in self.reg.noop_calls:
-            return None
         if fname == "cast" and len(node.args) == 2:
             return self.eval(node.args[1], env)
         self.cur_env = env  # lets a model of zero-argument `super()` find the enclosing function's first argument
         f = self.eval(fnode, env)
+        if fname in self.reg.noop_calls:
+            # output-only LIBRARY calls (print, warnings.warn, gc.collect, torch.cuda.empty_cache, tqdm); a repository
+            # function or a nested helper that merely has such a name is executed normally
+            target = getattr(f, "__func__", f)
+            if not isinstance(f, (Closure, BoundMethod)) and not (isinstance(target, types.FunctionType) and self.is_repo_function(target)):
+                return None
         args = self._elts(node.args, env)
         kwargs = {}
         for kw in node.keywords:
